@@ -2,5 +2,5 @@ SPECIFICATION Spec
 CONSTANTS
   Alphabet = {0, 32769, 23130}
   MaxLen = 4
-INVARIANT BitLaws
+INVARIANT BitLaws FieldLaws
 CHECK_DEADLOCK FALSE
